@@ -22,12 +22,12 @@
      InOrderOnce          callbacks 1..ecur-1 were started exactly once, in input order
      OutputInOrder        eout is the concatenation of the outputs of callbacks 1..ecur-1 (the last
                           one possibly partial)
-     ExcIsFirstFail       at return the exception is the first (and only) failure            *)
-EXTENDS Integers, Sequences, FiniteSets
+     ExcIsFirstFail       at return the exception is the first (and only) failure
+     RefAgrees            at return: started = 1..RefStop, output = RefOut, exception = RefFails (EachRef.tla) *)
+EXTENDS EachRef
 VARIABLES ecfg, ecur, eact, epos, ebroken, eerr, eout, eret, eexc
 evars == <<ecfg, ecur, eact, epos, ebroken, eerr, eout, eret, eexc>>
 
-Val(i, j) == i * 1000 + j
 
 EInitWith(c) == /\ ecfg = c /\ ecur = 1 /\ eact = 0 /\ epos = 0 /\ ebroken = FALSE /\ eerr = 0
                 /\ eout = <<>> /\ eret = FALSE /\ eexc = {}
@@ -49,12 +49,12 @@ EReturn == /\ ~eret /\ eact = 0 /\ (ebroken \/ ecur > ecfg.n)
 ENext == EStart \/ EPut \/ EEnd \/ EReturn
 
 \* ---- properties of the reference itself
-RECURSIVE OutUpTo(_, _)
-OutUpTo(c, k) == IF k = 0 THEN <<>> ELSE OutUpTo(c, k - 1) \o [j \in 1..c.nout[k] |-> Val(k, j)]
 OutputInOrder == eout = (IF eact = 0 THEN OutUpTo(ecfg, ecur - 1)
                          ELSE OutUpTo(ecfg, eact - 1) \o [j \in 1..epos |-> Val(eact, j)])
 NoStartAfterBroken == ebroken => eact = 0
 StopsAtFirstNonOk == \A i \in 1..(ecur - 1) : (i < ecur - 1 => ecfg.res[i] = "ok")
 ExcIsFirstFail == eret => /\ eexc = {i \in 1..(ecur - 1) : ecfg.res[i] = "fail"}
                           /\ (ecur <= ecfg.n => ecfg.res[ecur - 1] # "ok")
+\* the closed form of EachRef.tla is what this machine does
+RefAgrees == eret => /\ ecur - 1 = RefStop(ecfg) /\ eout = RefOut(ecfg) /\ eexc = RefFails(ecfg)
 =============================================================================
